@@ -237,22 +237,31 @@ type bceEntry struct {
 }
 
 // runBCE compiles packets and packets1 with the bounds-check debug flag.
-func runBCE(repo, goarch string) ([]bceEntry, error) {
+func runBCE(repo, goarch string, pkgs ...string) ([]bceEntry, error) {
+	if len(pkgs) == 0 {
+		pkgs = []string{"./packets", "./packets1"}
+	}
 	tmp, err := os.MkdirTemp("", "bisq-bce-")
 	if err != nil {
 		return nil, err
 	}
 	defer os.RemoveAll(tmp)
-	cmd := exec.Command("go", "build", "-gcflags=-d=ssa/check_bce/debug=1", "./packets", "./packets1")
+	cmd := exec.Command("go", append([]string{"build", "-gcflags=-d=ssa/check_bce/debug=1"}, pkgs...)...)
 	cmd.Dir = repo
 	env := []string{}
 	for _, e := range os.Environ() {
-		if strings.HasPrefix(e, "GOFLAGS=") || strings.HasPrefix(e, "GOCACHE=") || strings.HasPrefix(e, "GOARCH=") || strings.HasPrefix(e, "GOOS=") || strings.HasPrefix(e, "GOWORK=") {
+		if strings.HasPrefix(e, "GOFLAGS=") || (strings.HasPrefix(e, "GOCACHE=") && os.Getenv("BISQ_BCE_FRESH") != "") || strings.HasPrefix(e, "GOARCH=") || strings.HasPrefix(e, "GOOS=") || strings.HasPrefix(e, "GOWORK=") {
 			continue
 		}
 		env = append(env, e)
 	}
-	env = append(env, "GOFLAGS=-mod=readonly", "GOCACHE="+filepath.Join(tmp, "cache"), "GOPROXY=off", "GOSUMDB=off", "GOTOOLCHAIN=local", "GOWORK=off")
+	// The go command stores the compiler's diagnostics in the build cache and replays them on a
+	// cache hit (the cache key is the content hash of the sources and flags), so the normal cache can be
+	// used; BISQ_BCE_FRESH=1 forces a private empty cache.
+	env = append(env, "GOFLAGS=-mod=readonly", "GOPROXY=off", "GOSUMDB=off", "GOTOOLCHAIN=local", "GOWORK=off")
+	if os.Getenv("BISQ_BCE_FRESH") != "" {
+		env = append(env, "GOCACHE="+filepath.Join(tmp, "cache"))
+	}
 	if goarch != "" {
 		env = append(env, "GOARCH="+goarch)
 	}
